@@ -9,6 +9,7 @@ import (
 )
 
 func seekT(sub, tgt string) model.Op   { return model.Op{K: "seekT", Sub: sub, Tgt: tgt} }
+func reconfig(sub, what string) model.Op { return model.Op{K: "reconfig", Sub: sub, Tgt: what} }
 func snap(sub, name string) model.Op   { return model.Op{K: "snap", Sub: sub, Name: name} }
 func seekS(sub, name string) model.Op  { return model.Op{K: "seekS", Sub: sub, Name: name} }
 func sweep() model.Op                  { return model.Op{K: "sweepDL", Max: 100} }
@@ -77,6 +78,19 @@ func init() {
 				},
 			},
 			{
+				ID: "C01/filter-changed-or-name-reused", Prop: "C01", Depth: d(tier, 6, 7), Drain: true,
+				Cfg: model.Cfg{Topics: []string{"T0"}, Subs: []model.SubCfg{
+					{Name: "S0", Topic: "T0", Filter: fX},
+					{Name: "S1", Topic: "T0"},
+				}, Alt: []model.SubCfg{{Name: "S0", Topic: "T0", Filter: filt.N(filt.H("x"))}}},
+				Alphabet: []model.Op{
+					pub1("T0", "", 0), pub1("T0", "", 1),
+					pull("S0", 10), ack("S0", "all"),
+					delSub("S0"), mkSub("S0"), {K: "createSub", Sub: "S0", Tgt: "alt"},
+					reconfig("S0", "filter:notx"), reconfig("S0", "filter:none"), reconfig("S0", "filter:x"), reconfig("S1", "filter:x=1"),
+				},
+			},
+			{
 				ID: "C01/topic-recreated-under-subscriptions", Prop: "C01", Depth: d(tier, 5, 6), Drain: true,
 				Cfg: model.Cfg{Topics: []string{"T0"}, Subs: []model.SubCfg{
 					{Name: "S0", Topic: "T0"},
@@ -124,7 +138,7 @@ func init() {
 					ack("S0", "oldest"), ack("S1", "all"), ack("S2", "oldest"),
 					nack("S0", "all"), modack("S1", "all", 0),
 					seekT("S0", "before-all"), seekT("S2", "now"),
-					delSub("S1"),
+					delSub("S1"), mkSub("S1"), reconfig("S1", "filter:notx"), reconfig("S0", "filter:x=1"),
 					tick("lease+"),
 				},
 			},
@@ -230,6 +244,7 @@ func init() {
 					nack("S0", "oldest"), ack("S0", "oldest"),
 					tick("lease-"), tick("lease+"), tick("lease++"),
 					pub1("T0", "", 0),
+					reconfig("S0", "retry:30s-max40s"), reconfig("S0", "retry:none"),
 				},
 			})
 		}
